@@ -21,7 +21,7 @@ META = dict(
     bounds=dict(
         quick="degree 0..3, <=2 distinct interior knots (all multiplicity patterns for <=1, sampled for 2), 1-2 inserted nodes; "
               "polynomial (scalar / 2-D points) and rational (degree<=2)",
-        thorough="degree 0..4, <=2 interior knots all patterns, 1-3 nodes; rational up to degree 3",
+        thorough="degree 0..4, <=2 interior knots all patterns, 1-3 nodes; rational up to degree 2 (two nodes) / degree 3 (one node)",
     ),
     assumptions=[
         "numbers are exact reals (Fraction semantics); float rounding is not modelled",
@@ -47,7 +47,7 @@ def configs(tier, seed):
                 continue
             dim = 2 if (k + nn + seed) % 3 == 0 else 0
             cfgs.append(dict(name=f"p={p} mults={pat} nodes={nn} pol dim={dim}", p=p, mults=pat, nn=nn, rational=False, dim=dim))
-            if 1 <= p <= (2 if tier == "quick" else 3) and nn <= 2 and len(pat) <= 3 + (nn == 1):
+            if ((1 <= p <= 2 and nn <= 2) or (p == 3 and nn == 1 and tier == "thorough")) and len(pat) <= 3 + (nn == 1):
                 cfgs.append(dict(name=f"p={p} mults={pat} nodes={nn} rat dim=0", p=p, mults=pat, nn=nn, rational=True, dim=0))
     return cfgs
 
